@@ -22,7 +22,7 @@ INDUCTIVE = {"quick": [], "thorough": [
     {"module": "Binding", "cinit": "CInit", "init": "IndInit", "inv": "IndInv", "length": 1},
     {"module": "Binding", "cinit": "CInit", "init": "IndInit", "inv": "ActionInv", "length": 1}]}
 REQUIRED = ["Register", "Detect", "Access", "Construct", "Bind", "Copy", "access-refused", "bind-refused", "bind-ok",
-            "builtin-tie", "manual-wins", "builtin-registered", "Strip", "derived-from-bound-detects-differently", "nothing-matches", "access-cached", "access-after-manual-bind",
+            "builtin-tie", "manual-wins", "builtin-registered", "hand-made-arakawa", "Strip", "derived-from-bound-detects-differently", "nothing-matches", "access-cached", "access-after-manual-bind",
             "detected-CFGrid1D", "detected-CFGrid2D", "detected-ShocSimple", "detected-ShocStandard", "detected-UGrid",
             "detected-X", "detected-Y"]
 RULE = ("(a) every one of the 256 detection feature vectors (CF coordinate rank none / 1-D / 2-D / mixed x ems_version x "
@@ -95,6 +95,12 @@ def cases(tier: str, seed: int) -> list[dict]:
                 if bits >> bit & 1 and (bits in (3, 7, 56, 59, 63) or rng.random() < 0.1):
                     out.append({"src": "vec", "init": [c], "events": [{"a": "Access", "obj": 1}, {"a": "Strip", "obj": 1, "bit": bit},
                                                                       {"a": "Detect", "obj": 2}, {"a": "Access", "obj": 2}, {"a": "Access", "obj": 1}]})
+            # a convention object made BY HAND for one dataset (here: the generic Arakawa C class with explicit coordinate names)
+            # changes nothing about what is detected - for this dataset or for any other
+            if bits & 4 and (bits in (4, 5, 7, 12, 39) or rng.random() < 0.2):
+                out.append({"src": "vec", "init": [c, c], "events": [{"a": "Detect", "obj": 1}, {"a": "Construct", "cls": "ArakawaC", "obj": 1},
+                                                                     {"a": "Detect", "obj": 1}, {"a": "Detect", "obj": 2}, {"a": "Access", "obj": 2},
+                                                                     {"a": "Bind", "conv": 1}, {"a": "Access", "obj": 1}]})
             # built-in classes registered by hand as well (they are then both registered and entry points)
             bi = ["ShocStandard", "ShocSimple", "UGrid", "CFGrid1D", "CFGrid2D"]
             if bits in (7, 15, 59, 63, 23, 39) or rng.random() < 0.15:
@@ -242,7 +248,12 @@ def execute(case: dict) -> dict:
                     obs["conv"] = 0; obs["cls"] = "error"
             elif a == "Construct":
                 try:
-                    c = classes[e["cls"]](objs[e["obj"] - 1])
+                    if e["cls"] == "ArakawaC":
+                        # the generic Arakawa C class is made by hand, with the names of the coordinate variables
+                        names = {k: ("y_" + s, "x_" + s) for k, s in (("face", "centre"), ("left", "left"), ("back", "back"), ("node", "grid"))}
+                        c = classes["ArakawaC"](objs[e["obj"] - 1], coordinate_names=names)
+                    else:
+                        c = classes[e["cls"]](objs[e["obj"] - 1])
                     obs["conv"] = conv_id(c); obs["cls"] = type(c).__name__
                 except Exception:
                     obs["conv"] = 0; obs["cls"] = "error"
